@@ -624,9 +624,15 @@ func coordinate(e Engine, x *Ctx, o coordOpts) int {
 			reported++
 			exit = exitViolation
 		} else {
-			fmt.Fprintf(os.Stderr, "case %d did not crash when run alone (exit %d): inconclusive\n", h, code)
+			fmt.Fprintf(os.Stderr, "case %d did not crash when run alone (exit %d)\n", h, code)
 			os.Remove(path)
-			infra = true
+			if code == exitOK {
+				// the worker died of something outside the case (memory pressure on a busy machine): run
+				// alone in a fresh process the case finishes and holds - that is its verdict
+				total.Counters["worker_died_case_held_when_run_alone"]++
+			} else {
+				infra = true
+			}
 		}
 	}
 	if missing > len(hangs)+len(crashes) {
